@@ -230,6 +230,8 @@ func runC03(c *Ctx, tier string) {
 	}
 	runDictBoundAfterInsert(c, "C03-B1")
 	runBitmapWordCopies(c, "C03-N1")
+	runProjectionPrefix(c, "C03-P1")
+	runNilSliceIndex(c, "C03-X1", "vng", "runtime/vcache", "vector", "zio/vngio", "runtime/vam/op", "runtime/vam/expr", "runtime/vam/expr/function", "runtime/vam/expr/agg")
 	// O1
 	if fn := p.Func("(*vng.Writer).finalize"); fn == nil {
 		c.Undecided("C03-O1", "(*vng.Writer).finalize", "anchor does not resolve")
